@@ -7,6 +7,7 @@ import (
 	"encoding/json"
 	"fmt"
 	"math"
+	mbigf "math/big"
 	"reflect"
 	"strconv"
 	"time"
@@ -188,6 +189,16 @@ func (v Val) Go() any {
 		return out
 	case "jsonnum": // json.Number, as encoding/json decodes numbers with UseNumber
 		return json.Number(v.S)
+	case "cents": // a user-defined integer type whose String() prints another number than the value it holds
+		return Cents(mustInt(v.S, 64))
+	case "level": // ... and one whose String() prints an integer ten times the value
+		return Level(mustInt(v.S, 64))
+	case "bigfloat": // *big.Float: its String() keeps 10 significant digits
+		f, _, err := new(mbigf.Float).SetPrec(200).Parse(v.S, 10)
+		if err != nil {
+			panic("bad bigfloat payload")
+		}
+		return f
 	case "mapsi64": // not one of the map types with a provider of their own: the generic path for string-keyed maps
 		out := make(map[string]int64, len(v.M))
 		for _, kv := range v.M {
